@@ -1327,7 +1327,7 @@ class SelectBlock(Block, start=SelectStmt, end=EndSelectStmt):
         if not body:
             return SelectBlock(start_stmt.value, [])
 
-        if not isinstance(body[0], CaseStmt):
+        if not isinstance(body[0], (CaseStmt, CaseElseStmt)):
             raise SyntaxError(
                 loc=body[0].loc_start,
                 msg='Statements illegal between SELECT CASE and CASE')
